@@ -46,14 +46,20 @@ ID = 'C14'
 LEVEL = 'model_checking'
 TECHNIQUE = ('explicit-state BFS over output-generation histories in pre-populated scratch directories, each step '
              'executed on the real code and compared with a reference model of the directory; bounded exhaustive '
-             'enumeration of round trips (pickle, TOML parameter file, report listings) against independent readers')
+             'enumeration of round trips (pickle, TOML parameter file, report listings) against independent readers; '
+             'exhaustive bounded-length operation histories on one results object (writers x model-name alphabet x '
+             'pre-populated directories) and on one Parameters object (set / dump / read) against a reference dictionary')
 RULE = ('(i) one case per (model kind, name pool, bootstrap) results object and compared artefact; (ii) one case per '
         'set of <=2 deviations (parameter, value) from the default parameter set, non-trivial when the file differs '
         'from the default file; hand-written files: one case per (boolean parameter, spelling); (iii) one case per '
         '(results object, report writer); (n) one case per assignment absent/file/dir/link to the 4 candidate names; '
         '(iv) one case per (root directory, operation history) step, merged on the canonical state = sorted '
         '(entry name, type, content hash) + file-name fields of the results object + current start values; a step is '
-        'non-trivial when it creates a file although an entry with the base name already exists, or reads a pickle back. '
+        'non-trivial when it creates a file although an entry with the base name already exists, or reads a pickle back; '
+        '(i) is repeated per identification threshold of the seed\'s alphabet; (w) one case per (model name, root '
+        'directory, writer history) step, non-trivial when the directory is pre-populated or the same writer ran before; '
+        '(p) one case per history of set_value / dump_file / read_file on one Parameters object, non-trivial from the '
+        'second step on. '
         'distinct = distinct (part, witness) keys.')
 ASSUMPTIONS = [
     'datetime.now() as seen from biogeme.biogeme / biogeme.results / biogeme.parameters is owned (frozen instant), so '
@@ -66,6 +72,10 @@ ASSUMPTIONS = [
     'check functions (numpy integers and bools for numeric parameters are outside the alphabet)',
     'fewer than 100 files per base name (the ~NN numbering is two digits wide)',
     'reference TOML parser: stdlib tomllib; reference naming rule: the docstring of get_new_file_name',
+    'part (w) demands only what the statement says (earlier entries untouched, reported name new, it is the one new '
+    'entry, it reads back), not a particular name; model names are non-empty strings without path separators',
+    'part (p): dump_file always goes to a new file name (parameter files are outside the no-overwrite clause); reading a '
+    'hand-written partial file changes exactly the listed entries (the behaviour part (ii) already checks for a fresh object)',
 ]
 ANCHOR_FILES = ['src/biogeme/results.py', 'src/biogeme/parameters.py', 'src/biogeme/default_parameters.py',
                 'src/biogeme/filenames.py', 'src/biogeme/biogeme.py', 'src/biogeme/tools/files.py',
